@@ -17,6 +17,7 @@ Section NoPanic.
     - unfold apply_patch. destruct o; try reflexivity; destruct (find_anode node (w_nodes w)) as [a|]; try reflexivity; destruct (an_cidrs a); reflexivity.
     - unfold apply_update_cc. destruct outcome; try reflexivity; destruct (find_cc (o_name o') (w_ccs w)) as [c|]; try reflexivity;
         destruct (negb (o_rv c =? o_rv o')); try reflexivity; match goal with |- context [if ?b then _ else _] => destruct b end; reflexivity.
+    - destruct (apply_create_cc_frame w o' outcome) as (_ & _ & _ & H & _). exact H.
   Qed.
 
   Lemma run_node_sync_ok w cached key outs :
@@ -123,12 +124,13 @@ Section NoPanic.
     - (* Crash *) split; [intros m0 E0; discriminate E0|cbn; discriminate].
     - (* Construct *)
       destruct (w_ctl w) as [m0|] eqn:Em; [split; [exact K|cbn; discriminate]|].
-      destruct (construct po lab (w_ccs w) outs svc1 svc2 (map node_view (w_nodes w))) as [[m fx] pan] eqn:Ec. cbn [fst snd].
+      destruct (construct po lab (with_default dp (w_ccs w)) outs svc1 svc2 (map node_view (w_nodes w))) as [[m fx] pan] eqn:Ec. cbn [fst snd].
       assert (Hpan : pan = false).
-      { unfold construct in Ec. destruct (bootstrap_ccs [] (w_ccs w) outs) as [m1 fx1] eqn:Eb.
-        destruct Ho as [H1 H2].
-        assert (M1 : MapInv m1) by (eapply (bootstrap_ccs_inv (w_ccs w) [] outs m1 fx1); [intros c Hc; destruct Hc|exact (wi_ccs w I)|exact Eb]).
-        assert (K1 : KU m1) by (eapply (bootstrap_KU (w_ccs w) [] outs m1 fx1); [unfold KU; cbn; apply NoDup_nil|exact Eb]).
+      { unfold construct in Ec. destruct (bootstrap_ccs [] (with_default dp (w_ccs w)) outs) as [m1 fx1] eqn:Eb.
+        destruct Ho as (H1 & H2 & Hdp).
+        assert (Hgood : Forall good_obj (with_default dp (w_ccs w))) by (apply with_default_good; [exact Hdp|exact (wi_ccs w I)]).
+        assert (M1 : MapInv m1) by (eapply (bootstrap_ccs_inv (with_default dp (w_ccs w)) [] outs m1 fx1); [intros c Hc; destruct Hc|exact Hgood|exact Eb]).
+        assert (K1 : KU m1) by (eapply (bootstrap_KU (with_default dp (w_ccs w)) [] outs m1 fx1); [unfold KU; cbn; apply NoDup_nil|exact Eb]).
         set (m2 := match svc1 with Some s => filter_service m1 s | None => m1 end) in *.
         assert (M2 : MapInv m2) by (unfold m2; destruct svc1; [apply filter_service_inv; [exact M1|apply H1; reflexivity]|exact M1]).
         assert (K2 : KU m2) by (unfold m2; destruct svc1; [apply KU_filter_service|]; exact K1).
